@@ -538,3 +538,22 @@ Fixpoint g_ops (ops : list gop) (l : lroot) : option lroot :=
   | [] => Some l
   | o :: rest => match g_op o l with Some l' => g_ops rest l' | None => None end
   end.
+
+(* ------------------------------------------------------------------ separators *)
+(* what a history does to the slots of the field (RelEditSpec.tree_slots, sstep) *)
+Definition xfs_step (fs : list (list relx) * list fslot) (o : aop) : list (list relx) * list fslot :=
+  (xstep (fst fs) o, sstep (fst fs) (snd fs) o).
+Definition xslots_after (ops : list aop) (f : list (list relx)) (s : list fslot) : list fslot :=
+  snd (fold_left xfs_step ops (f, s)).
+Definition psstep (s : list fslot) (o : pop) : list fslot :=
+  match o with
+  | PPush _ _ _ => s_push s
+  | PInsert i _ _ _ => s_insert i s
+  | _ => s
+  end.
+Definition gsstep (f : list (list relx)) (s : list fslot) (o : gop) : list fslot :=
+  match o with GA o => sstep f s o | GP o => psstep s o end.
+Definition gfs_step (fs : list (list relx) * list fslot) (o : gop) : list (list relx) * list fslot :=
+  (gxstep (fst fs) o, gsstep (fst fs) (snd fs) o).
+Definition gslots_after (ops : list gop) (f : list (list relx)) (s : list fslot) : list fslot :=
+  snd (fold_left gfs_step ops (f, s)).
